@@ -218,6 +218,9 @@ pub fn run_c13(cfg: &Cfg) -> Report {
             let pre = m.get("pre").and_then(|s| s.parse().ok()).unwrap_or(0);
             let post = m.get("post").and_then(|s| s.parse().ok()).unwrap_or(0);
             c13_all_widths(t, xu, pre, post);
+            for nl in [0usize, 1, 5, 15, 16, 17, 31, 32, 33, 55, 64] {
+                c13_transports(t, xu, nl);
+            }
         });
         rep.stats.merge(s);
         rep.rule = "replay (value re-run through all 16 adapters)".into();
@@ -423,7 +426,19 @@ pub fn c20_value(t: &mut Tctx, algos: &[CrcAlgo], shape: &Shape, val: &Val) {
             Framing::Crc(_) => "stack_crc",
             Framing::CrcInCobs(_) => "stack_crc_in_cobs",
         });
-        // innermost storage: slice
+        // innermost storage: slice - exactly fitting (what heapless / growable storage also manage) and roomy
+        let mut exact = vec![0u8; want.len()];
+        match catch(|| to_slice_framed(f, algos, val, &mut exact)) {
+            Ok(Ok((p, l))) if p == exact.as_ptr() as usize && l == want.len() && exact[..] == want[..] => t.st.count("storage_slice_exact_fit"),
+            other => {
+                t.st.violation(
+                    "C20:slice-stack-differs",
+                    format!("{} over an exactly fitting Slice ({} bytes) gave {:?}, composed reference transforms give {}", label, want.len(), other.map(|r| r.map(|x| x.1).map_err(|e| err_label(&e))), hexs(&want)),
+                    rp20(shape, &plain, &label),
+                );
+                return;
+            }
+        }
         match catch(|| to_slice_framed(f, algos, val, &mut buf)) {
             Ok(Ok((p, l))) if p == buf.as_ptr() as usize && buf[..l] == want[..] => t.st.count("storage_slice"),
             other => {
